@@ -14,8 +14,10 @@ import Nitime.Model.C20
 import Nitime.Lemmas.C20Corr
 import Nitime.Lemmas.C20Real
 import Nitime.Lemmas.C20Entropy
+import Nitime.Lemmas.C20Entropy3
 import Nitime.Lemmas.C20Lanes
 import Nitime.Lemmas.C20Spectrum
+import Nitime.Lemmas.C20Object
 
 namespace Nitime.C20.Props
 open Finset Nitime.Ev Nitime.C20
@@ -141,6 +143,17 @@ theorem xcorr_norm_zero_lag (var : Variant) (data : List (List ℝ)) (i j : ℕ)
   simp only [r_mul, r_div]
   rw [div_self hnz, one_mul]
 
+/-- the analyzer as an object with one-time (cached) outputs: whatever outputs are read, in
+whatever order and however often, every read hands out exactly what a fresh analyzer computes for
+that output from the input, and the stored input is unchanged (any scalar instance) -/
+theorem analyzer_reads_any_order {K : Type} [RScalar K] (var : Variant) (data : List (List K))
+    (os : List Out) :
+    ((AState.fresh data).reads var os).1 = os.map (compute var data) ∧
+    ((AState.fresh data).reads var os).2.data = data ∧
+    ((AState.fresh data).reads var os).2.Inv var := by
+  obtain ⟨a, b, c⟩ := AState.reads_spec var os (AState.fresh data) (AState.inv_fresh var data)
+  exact ⟨a, c, b⟩
+
 /-! ### Pearson coefficient, z-score, percent change (ℝ) -/
 
 theorem pearson_abs_le_one (seed target : List ℝ) (h : seed.length = target.length) :
@@ -222,6 +235,46 @@ theorem cond_le (x y : List σ) (hl : x.length = y.length) :
   have h := mi_nonneg_real y x hl.symm
   simp only [conditionalEntropy, entropy2, entropy1, r_sub] at h ⊢
   linarith
+
+/-- conditional entropy is non-negative: `H(X|Y) = H(Y,X) − H(Y) ≥ 0` -/
+theorem cond_nonneg (x y : List σ) (hl : x.length = y.length) :
+    0 ≤ (conditionalEntropy x y : ℝ) := by
+  have h := entropy_le_joint_left y x hl.symm
+  simp only [conditionalEntropy, entropy2, entropy1, r_sub]
+  linarith
+
+/-- transfer entropy is the conditional mutual information `I(F;Y|X)`, `F = np.roll(x, -lag)`:
+`TE = H(F|X) − H(F|X,Y) ≥ 0` (conditioning on more never increases entropy) -/
+theorem transfer_entropy_nonneg (x y : List σ) (hl : x.length = y.length) (lag : ℕ) :
+    0 ≤ (transferEntropy x y lag : ℝ) ∧
+    (transferEntropy x y lag : ℝ)
+      = (entropy2 x (rollLeft x lag) - entropy1 x) - (entropy3 (rollLeft x lag) y x - entropy2 x y) := by
+  have hf : (rollLeft x lag).length = x.length := length_rollLeft x lag
+  have h := cmi_nonneg (rollLeft x lag) y x (hf.trans hl) hf
+  have s1 := entropy2_symm x (rollLeft x lag) hf.symm
+  have s2 := entropy2_symm x y hl
+  refine ⟨?_, rfl⟩
+  simp only [transferEntropy, conditionalEntropy, entropy3, entropy2, entropy1, r_sub]
+  rw [s1, s2]
+  linarith
+
+/-- the entropy correlation coefficient lies in [0, 1] -/
+theorem entropy_cc_bounds (x y : List σ) (hl : x.length = y.length) :
+    0 ≤ (entropyCC x y : ℝ) ∧ (entropyCC x y : ℝ) ≤ 1 := by
+  have h1 := entropy_le_joint_left y x hl.symm
+  have h2 := entropy_le_joint_right y x hl.symm
+  have hx := entropyG_nonneg (uniq x) x
+  have hy := entropyG_nonneg (uniq y) y
+  simp only [entropyCC, mutualInformation, entropy2, entropy1, r_sqrt, r_div, r_mul, r_add, r_sub, r_ofNat]
+  refine ⟨Real.sqrt_nonneg _, Real.sqrt_le_one.mpr ?_⟩
+  by_cases hd : ((1 : ℕ) : ℝ) / ((2 : ℕ) : ℝ) * ((entropyG (uniq x) x : ℝ) + entropyG (uniq y) y) = 0
+  · rw [hd]; simp
+  · have hpos : 0 < ((1 : ℕ) : ℝ) / ((2 : ℕ) : ℝ) * ((entropyG (uniq x) x : ℝ) + entropyG (uniq y) y) := by
+      refine lt_of_le_of_ne ?_ (Ne.symm hd)
+      positivity
+    rw [div_le_one hpos]
+    push_cast
+    linarith
 
 /-- injective relabelling of the symbols (per variable) changes nothing — at EVERY scalar
 instance, because the exact histograms coincide -/
